@@ -175,6 +175,17 @@ func simGen(r *rand.Rand, tier string, n int) []*wire.Case {
 		mk("d-killer-real-then-zero", s)
 	}
 	{
+		s := base() // skill not usable: the registered default action is performed, with ITS target rule
+		s.ckind = []int{0, 0}
+		s.ehp = []float64{6000, 6000}
+		s.progs = []string{"Ap.1.1.100", "Au4.2.1.600+Ap.2.1.50", "Hp.300", "Ap.3.1.10", "Ap.1.1.150"}
+		s.cskill = []int{1, 1}
+		s.next = "1:s100,s100,s100,s100,s100|2:s100,s100,s100"
+		s.dflt = "1:a101|2:a4"
+		s.cycles = 4
+		mk("d-fallback-default-rule", s)
+	}
+	{
 		s := base() // lowest-HP / lowest-ratio rules with the minimum in the middle of the line-up
 		s.ehp = []float64{3000, 3000, 3000, 3000}
 		s.espd = []float64{60, 61, 62, 63}
@@ -189,9 +200,9 @@ func simGen(r *rand.Rand, tier string, n int) []*wire.Case {
 			// target-rule flavour: a long enemy line with spread-out HP, rules lowest HP / lowest ratio only
 			nc, ne := 1+r.Intn(2), 3+r.Intn(3)
 			s := simSpec{cycles: 2 + r.Intn(3), start: -1, seed: r.Intn(1000)}
-			var next []string
+			var next, dflts []string
 			for c := 0; c < nc; c++ {
-				s.ckind = append(s.ckind, pick(r, 0, 3))
+				s.ckind = append(s.ckind, pick(r, 0, 0, 3))
 				s.cspd = append(s.cspd, pick(r, 0.0, 20, 40))
 				s.cenergy = append(s.cenergy, 0)
 				var hits []string
@@ -202,10 +213,18 @@ func simGen(r *rand.Rand, tier string, n int) []*wire.Case {
 				s.progs = append(s.progs, strings.Join(hits, "+"))
 				s.cattack, s.cskill, s.cult = append(s.cattack, c), append(s.cskill, c), append(s.cult, c)
 				var ds []string
+				skillHeavy := r.Intn(2) == 0 // skill points run out: the registered default action takes over
 				for k := 0; k < 2+r.Intn(3); k++ {
-					ds = append(ds, fmt.Sprintf("%s%d", pick(r, "a", "s"), pick(r, 101, 102, 102)))
+					typ := pick(r, "a", "s")
+					if skillHeavy {
+						typ = "s"
+					}
+					ds = append(ds, fmt.Sprintf("%s%d", typ, pick(r, 101, 102, 102, 100)))
 				}
 				next = append(next, fmt.Sprintf("%d:%s", c+1, strings.Join(ds, ",")))
+				if r.Intn(3) != 0 {
+					dflts = append(dflts, fmt.Sprintf("%d:a%d", c+1, pick(r, 100, 101, 102, nc+1+r.Intn(ne))))
+				}
 			}
 			s.progs = append(s.progs, "_")
 			for e := 0; e < ne; e++ {
@@ -213,7 +232,7 @@ func simGen(r *rand.Rand, tier string, n int) []*wire.Case {
 				s.espd = append(s.espd, pick(r, 50.0, 60, 70))
 				s.eaction = append(s.eaction, len(s.progs)-1)
 			}
-			s.next = strings.Join(next, "|")
+			s.next, s.dflt = strings.Join(next, "|"), strings.Join(dflts, "|")
 			mk(fmt.Sprintf("r%d", i), s)
 			continue
 		}
